@@ -178,8 +178,12 @@ def _audit1(module: str) -> dict:
     res = {"module": module, "build_ok": False, "theorems": [], "examples": 0, "bad": [], "axioms": {}, "log": ""}
     ok, log = lake_build([module])
     res["build_ok"] = ok
-    if any("Gen." in str(p.relative_to(LEAN_DIR)).replace("/", ".") for p in lean_sources_of(module)):
-        res["bad"] += list(TRANSLATOR_PROBLEMS)
+    gens = {str(p.relative_to(LEAN_DIR))[:-5].replace("/", ".") for p in lean_sources_of(module)}
+    for prob in TRANSLATOR_PROBLEMS:
+        # "py2lean: [Gen.X] ..." concerns this property only when its proofs import Gen.X
+        m = re.match(r"py2lean: \[(Gen\.\w+)\]", prob)
+        if m is None or m.group(1) in gens:
+            res["bad"].append(prob)
     if not ok:
         res["log"] = log[-4000:]
         res["bad"].append("build of %s failed" % module)
